@@ -823,6 +823,57 @@ func TestVerif_C17(t *testing.T) {
 			}
 		}
 	}
+	// (5b) the same pages asked for by a browser that holds a password-only session while the web UI wants a
+	// second factor: the answer is the second-factor page, whose hidden login_destination is again r.URL.String();
+	// each of its forms that one of the provers can answer is submitted as a browser would (fresh code, same
+	// session) and the redirect after the accepted factor is compared with location(hidden value)
+	savedWebUI := env.state.Config.Base.AllowedAuthBackendsForWebUI
+	env.state.Config.Base.AllowedAuthBackendsForWebUI = []string{"U2F"}
+	for _, pg := range flowPages {
+		for _, tf := range targetForms {
+			for _, pr := range provers {
+				req, err := c17RawRequest("GET", tf.prefix+pg.path, tf.host, "")
+				if err != nil {
+					continue
+				}
+				req.Header.Set("Accept", "text/html")
+				session := env.cookie(pr.user, AuthTypePassword)
+				req.AddCookie(session)
+				target, otp := pr.prep() // first: the page offers the bootstrap-OTP form only to a user who has one
+				rr, _ := env.serve(req)
+				if rr.Code != 401 {
+					pr.done()
+					res.bump(fmt.Sprintf("2fa-page:status-%d", rr.Code))
+					continue
+				}
+				f, ok := c17Forms(rr.Body.Bytes())[target]
+				if !ok || otp == "" {
+					pr.done()
+					res.bump("2fa-page:no-form:" + pr.name)
+					continue
+				}
+				f.Set("OTP", otp)
+				preq := verifNewRequest("POST", target, f)
+				preq.Header.Set("Accept", "text/html")
+				preq.AddCookie(session)
+				prr, _ := env.serve(preq)
+				pr.done()
+				if prr.Code != 302 {
+					res.bump("2fa-page:not-redirected:" + pr.name)
+					continue
+				}
+				res.bump("2fa-page:redirected:" + pr.name)
+				record(f.Get("login_destination"), prr.Header().Get("Location"), "prompt-2fa-page:"+pr.name+":"+tf.name, true)
+			}
+		}
+	}
+	env.state.Config.Base.AllowedAuthBackendsForWebUI = savedWebUI
+	// (the failure path never offers the bootstrap-OTP form; the other three must be reached)
+	for _, pr := range provers {
+		if pr.name != "bootstrapOtp" && res.counts["2fa-page:redirected:"+pr.name] == 0 {
+			res.hit(verifHit{Key: "C17:harness:no-2fa-page-flow:" + pr.name, Oracle: "harness", What: "the second-factor page of a protected page never led to a redirect through this handler", Case: pr.name})
+		}
+	}
 	// (6) logoutHandler: Location "/?user=<name in the session>"; the name is whatever the password backend or the
 	// identity provider admitted.  Names without control bytes must stay on the origin (theorem c17_logout).
 	type logoutObs struct {
